@@ -86,6 +86,12 @@ def _cmd(fr, size, rnd):
 
 
 def make_case(tier, seed, index):
+    case = _make_case(tier, seed, index)
+    case["ipv6"] = index % 6 == 5
+    return case
+
+
+def _make_case(tier, seed, index):
     rnd = C.rng_for(seed, ID, index)
     space = _space(tier)
     if index < len(space):
@@ -232,7 +238,9 @@ def run_case(case):
             dev = SimInverter(mode="file", fill="constw")
             dev.const_word = 0xAA55
     world.net.add_device(C.HOST, C.port_of(tr), dev)
-    proto = C.make_protocol(tr, tau, r, case["keep_alive"])
+    world.net.add_device(C.HOST6, C.port_of(tr), dev)
+    # a sixth of the cases reach the inverter over IPv6 (the sender of a datagram is then a 4-tuple)
+    proto = C.make_protocol(tr, tau, r, case["keep_alive"], host=C.HOST6 if case.get("ipv6") else C.HOST)
     state = {}
 
     async def main():
